@@ -77,6 +77,7 @@ pub fn common(_case: &Case, out: &Outcome, h: &Hist) -> Vec<Violation> {
         let r: &'static str = match rule.as_str() {
             "overlap" => "overlap",
             "api_panicked" => "api_panicked",
+            "c11_timeout_not_raised" => "c11_timeout_not_raised",
             _ => "invariant",
         };
         v.push(Violation::new(r, detail.clone()));
